@@ -38,7 +38,9 @@
 // projection (keys sorted):
 //  {"alive","bscript":[...],"bst","cscript":[...],"got":[{"a","v"}],"it","loc":{"ctor","dtor"},
 //   "obs":[{"p","r","v"}],"par","pr":{"arg","awaiting","block","caller","done","exp","ifn","ret"}|{},
-//   "aops","cp","val","var":{"id","m"}}
+//   "aops","aux":{"ctor","dtor","par"},"cp","val","var":{"id","m"}}
+// steps: ... plus ObjOp("movector"|"assign_empty|fresh|yield|final"|"swap_fresh|yield|final"): operations on the generator OBJECT.
+// Arguments are passed as lvalue, as temporary and as std::move(named object), rotating with the access number.
 #include <cocls/generator.h>
 #include <cocls/async.h>
 #include <cocls/future.h>
@@ -99,8 +101,18 @@ template <int Tag> struct Tracked {
     int id = 0;
     bool moved = false;
     static inline std::atomic<int> copies{0}, moves{0}, live{0};
+    // where objects were constructed from a content (the consumer's argument temporaries): address -> content, so that a
+    // pointer to a temporary that is already gone can still be identified without touching it
+    struct Where { const void *addr; int id; };
+    static inline Where where[64];
+    static inline std::atomic<unsigned> nwhere{0};
+    static int content_at(const void *p) {
+        unsigned n = nwhere.load();
+        for (unsigned k = 0; k < 64 && k < n; k++) { const Where &w = where[(n - 1 - k) % 64]; if (w.addr == p) return w.id; }
+        return -1;
+    }
     Tracked() { ++live; }
-    explicit Tracked(int i) : id(i) { ++live; }
+    explicit Tracked(int i) : id(i) { ++live; unsigned n = nwhere.fetch_add(1); where[n % 64] = Where{this, i}; }
     Tracked(const Tracked &o) : id(o.id), moved(o.moved) { ++live; ++copies; }
     Tracked(Tracked &&o) noexcept : id(o.id), moved(o.moved) { ++live; ++moves; o.id = 0; o.moved = true; }
     Tracked &operator=(const Tracked &o) { id = o.id; moved = o.moved; ++copies; return *this; }
@@ -108,7 +120,7 @@ template <int Tag> struct Tracked {
     ~Tracked() { --live; }
     void set(int i) { id = i; moved = false; }        // the owner writes new content
     operator int() const { return id; }               // reading the content never copies the object
-    static void reset_counters() { copies = 0; moves = 0; }
+    static void reset_counters() { copies = 0; moves = 0; nwhere = 0; }
 };
 using V = Tracked<0>;     // what the generator yields
 using A = Tracked<1>;     // what the consumer passes in
@@ -158,7 +170,10 @@ struct Obs {
 };
 struct Got { int a; int v; };
 
-enum Kind { K_SYNC, K_BEGIN, K_INC, K_POSTINC, K_COAWAIT, K_FUTURE, K_DESTROY, K_RESOLVE, K_QUIT };
+enum Kind { K_SYNC, K_BEGIN, K_INC, K_POSTINC, K_COAWAIT, K_FUTURE, K_DESTROY, K_RESOLVE, K_OBJ, K_QUIT };
+static inline bool is_access(Kind k) { return k <= K_FUTURE; }
+static const char *const OBJ_KINDS[] = {"movector", "assign_empty", "assign_fresh", "assign_yield", "assign_final",
+                                        "swap_fresh", "swap_yield", "swap_final"};
 struct Cmd { Kind kind = K_QUIT; int idx = 0; };
 
 template <typename G> struct World;
@@ -252,6 +267,13 @@ G body_fn(World<G> *w, Param) {
 #undef DO_YIELD
 }
 
+// the body of the OTHER generators the object-level operations replace: a RAII local, one item, the end
+template <typename G>
+G aux_fn(World<G> *w, Param) {
+    Counted guard(&w->aux_ctor, &w->aux_dtor);
+    co_yield V(7);
+}
+
 template <typename G> struct Gate {
     World<G> *w;
     bool await_ready() const noexcept { return false; }
@@ -303,6 +325,8 @@ struct World {
     std::vector<Obs> obs;
     std::vector<A> args;
     V *bvar = nullptr;                               // the body's variable while it exists
+    bool script_sync = true;                         // the body script never suspends on a pending operation
+    int aux_ctor = 0, aux_dtor = 0, aux_par = 0;     // the generators replaced by object-level operations
     int cur = 0;                                     // number of the access made last (1-based)
     std::map<int, std::unique_ptr<cocls::future<V>>> futs;   // native: futures returned by gen()
     std::map<int, const void *> fut_addr;            // access -> address of its future
@@ -373,13 +397,24 @@ struct World {
         }
     }
 
-    auto next_(int i) {
-        if constexpr (WithArg) return gen->next(args[i]);
-        else return gen->next();
+    // how access i passes its argument: 0 an lvalue, 1 a temporary (prvalue), 2 std::move(named object).  A temporary
+    // is only legal where the library documents it -- the result is consumed in the same full expression (the
+    // conversion to bool, the co_await, a gen() call on a body that does not outlast the call); elsewhere 1 becomes 2
+    static int arg_form(int i, bool prvalue_ok) { int f = i % 3; return (f == 1 && !prvalue_ok) ? 2 : f; }
+    auto next_(int i) {                 // forms 0 / 2 only: the awaitable outlives this function
+        if constexpr (WithArg) {
+            if (i % 3) return gen->next(std::move(args[i]));
+            return gen->next(args[i]);
+        } else return gen->next();
     }
     cocls::future<V> call_(int i) {
-        if constexpr (WithArg) return (*gen)(args[i]);
-        else return (*gen)();
+        if constexpr (WithArg) {
+            switch (arg_form(i, script_sync)) {
+                case 1: return (*gen)(A(100 + i));
+                case 2: return (*gen)(std::move(args[i]));
+                default: return (*gen)(args[i]);
+            }
+        } else return (*gen)();
     }
 
     // if (gen.next()) v = gen.value();
@@ -387,6 +422,13 @@ struct World {
         Obs &o = obs[i - 1];
         Win win;
         try {
+            if constexpr (WithArg) {
+                if (arg_form(i, true) == 1) {
+                    if (gen->next(A(100 + i))) observe_next(o, true);     // temporary, consumed in the same expression
+                    else observe_next(o, false);
+                    return;
+                }
+            }
             if ((i & 1) || WithArg) {
                 auto a = next_(i);
                 bool nb = !a;        // the first conversion advances the generator ...
@@ -452,7 +494,50 @@ struct World {
         }
     }
 
+    // operations on the generator OBJECT (spec: ObjOp).  The other generator is made in the required state by plain
+    // sync accesses; afterwards consumption continues through `gen`, which is re-made from the object that ended up
+    // owning the scripted coroutine.
+    bool aux_step(G &t) {
+        if constexpr (WithArg) return bool(t.next(args[0]));
+        else return bool(t.next());
+    }
+    void obj_op(int kind) {
+        iter.reset(); it = "none";
+        const std::string k = OBJ_KINDS[kind];
+        if (k == "movector") {
+            G b(std::move(*gen));
+            gen.reset();                       // the moved-from object: empty, destructible
+            gen.emplace(std::move(b));
+            return;
+        }
+        std::optional<G> t;
+        const std::string state = k.substr(k.find('_') + 1);
+        if (state == "empty") t.emplace();
+        else {
+            t.emplace(aux_fn<G>(this, Param(&aux_par)));
+            if (state == "yield" || state == "final") aux_step(*t);          // parked at its co_yield
+            if (state == "final") { aux_step(*t); if (!t->done()) consumer_error = "auxiliary generator did not finish"; }
+        }
+        if (k[0] == 'a') {
+            *t = std::move(*gen);              // the coroutine t owned is destroyed here, exactly once
+            gen.reset();                       // moved-from
+        } else {
+            std::swap(*gen, *t);
+            gen.reset();                       // the object that now owned t's former coroutine
+        }
+        gen.emplace(std::move(*t));
+        t.reset();
+    }
+    // the end of the generator object.  Every other time the parked generator is first REPLACED by move assignment
+    // (g = other(); what vector::erase does to its elements): the coroutine it owned is destroyed by the assignment,
+    // exactly once; the never started newcomer then dies with the object
+    void destroy_gen() {
+        iter.reset();
+        if (gen && (cur & 1)) *gen = aux_fn<G>(this, Param(&aux_par));
+        gen.reset();
+    }
     void exec_native(const Cmd &c) {
+        if (c.kind == K_OBJ) { obj_op(c.idx); return; }
         if (c.kind != K_DESTROY && !iter && (c.idx & 1) == 0) {
             G tmp = std::move(*gen);       // generators are movable; adapters created later refer to the new object
             gen.emplace(std::move(tmp));
@@ -462,7 +547,7 @@ struct World {
             case K_BEGIN: case K_INC: case K_POSTINC: iter_access(c.kind, c.idx); break;
             case K_COAWAIT: helpers_started++; co_access<G>(*this, c.idx).detach(); break;
             case K_FUTURE: future_access(c.idx); break;
-            case K_DESTROY: iter.reset(); gen.reset(); break;
+            case K_DESTROY: destroy_gen(); break;
             default: break;
         }
     }
@@ -541,7 +626,7 @@ struct World {
             if (st.name == "NextFuture") cb_issue(K_FUTURE);
             else if (st.name == "NextAsync") cb_issue(K_COAWAIT);
             else if (parse_cmd(st, c)) {
-                if (c.kind != K_DESTROY) {
+                if (is_access(c.kind)) {
                     c.idx = ++cur;
                     cdone.push_back(style_name(c.kind));
                     obs.emplace_back();
@@ -632,6 +717,9 @@ struct World {
         m.set("cp", V::copies.load());      // (moves are not compared: whether `return z` in it++ is elided is the compiler's choice;
                                             //  a move FROM a yielded object shows in its content: "val", "var", later items)
         m.set("aops", A::copies.load() + A::moves.load());
+        J aux = J::map();
+        aux.set("ctor", aux_ctor); aux.set("dtor", aux_dtor); aux.set("par", aux_par);
+        m.set("aux", aux);
         J var = J::map();
         var.set("id", bvar ? bvar->id : 0);
         var.set("m", bvar ? bvar->moved : false);
@@ -652,8 +740,10 @@ struct World {
             auto fn = AwProbe::fn_of(internal);
             pr.set("ifn", fn == Stolen<T_fn_sync<G>>::value ? "sync" : fn == Stolen<T_fn_future<G>>::value ? "future" : "none");
             if constexpr (WithArg) {
+                // identified by address: after an access on a finished generator _arg still points at the argument
+                // object, which may have been a temporary
                 A *a = p.*Stolen<T_arg<G>>::value;
-                pr.set("arg", a ? a->id : 0);
+                pr.set("arg", a == nullptr ? 0 : (a >= args.data() && a < args.data() + args.size()) ? a->id : A::content_at(a));
             } else pr.set("arg", 0);
             V *r = p.*Stolen<T_ret<G>>::value;
             pr.set("ret", r == nullptr ? 0 : bs == "yield" ? r->id : -1);
@@ -684,6 +774,9 @@ struct World {
         if (st.name == "NextAsync") { c.kind = K_COAWAIT; return true; }
         if (st.name == "NextFuture") { c.kind = K_FUTURE; return true; }
         if (st.name == "Destroy") { c.kind = K_DESTROY; return true; }
+        if (st.name == "ObjOp") {
+            for (int k = 0; k < 8; k++) if (st.sarg(0) == OBJ_KINDS[k]) { c.kind = K_OBJ; c.idx = k; return true; }
+        }
         return false;
     }
     static const char *style_name(Kind k) {
@@ -704,6 +797,7 @@ struct World {
         if (!sc.steps.empty()) {
             JV last = JReader(sc.steps.back().expected).parse();
             for (auto &x : last.at("bscript").l) bscript.push_back(x.s);
+            for (auto &k : bscript) if (k == "apend") script_sync = false;
         }
         gen.emplace(body_fn<G>(this, Param(&par_live)));
         frame = const_cast<void *>(gen->get_id());
@@ -726,7 +820,7 @@ struct World {
             const Step &st = sc.steps[k];
             Cmd c;
             if (parse_cmd(st, c)) {
-                if (c.kind != K_DESTROY) {
+                if (is_access(c.kind)) {
                     c.idx = ++cur;
                     cdone.push_back(style_name(c.kind));
                     obs.emplace_back();
@@ -813,8 +907,13 @@ cocls::async<void> co_access(World<G> &w, int i) {
     ++t_window;      // the access (the helper's own frame was allocated before)
     try {
         bool b;
-        if constexpr (World<G>::WithArg) b = co_await w.gen->next(w.args[i]);
-        else b = co_await w.gen->next();
+        if constexpr (World<G>::WithArg) {
+            switch (World<G>::arg_form(i, true)) {
+                case 1: b = co_await w.gen->next(A(100 + i)); break;              // the temporary lives in this frame
+                case 2: b = co_await w.gen->next(std::move(w.args[i])); break;
+                default: b = co_await w.gen->next(w.args[i]); break;
+            }
+        } else b = co_await w.gen->next();
         w.observe_next(w.obs[i - 1], b);
     } catch (const cocls::no_more_values_exception &) {
         w.obs[i - 1].r = "nomore";
@@ -842,8 +941,13 @@ cocls::async<void> consumer(World<G> &w) {
                 ++t_window;
                 try {
                     bool b;
-                    if constexpr (WithArg) b = co_await w.gen->next(w.args[i]);
-                    else b = co_await w.gen->next();
+                    if constexpr (WithArg) {
+                        switch (World<G>::arg_form(i, true)) {
+                            case 1: b = co_await w.gen->next(A(100 + i)); break;
+                            case 2: b = co_await w.gen->next(std::move(w.args[i])); break;
+                            default: b = co_await w.gen->next(w.args[i]); break;
+                        }
+                    } else b = co_await w.gen->next();
                     w.observe_next(w.obs[i - 1], b);
                 } catch (const cocls::no_more_values_exception &) { w.obs[i - 1].r = "nomore"; }
                 --t_window;
@@ -910,7 +1014,8 @@ cocls::async<void> consumer(World<G> &w) {
                 }
             } break;
             case K_INC: case K_POSTINC: w.iter_access(c.kind, i); break;
-            case K_DESTROY: w.iter.reset(); w.gen.reset(); break;
+            case K_DESTROY: w.destroy_gen(); break;
+            case K_OBJ: w.obj_op(c.idx); break;
             default: break;
         }
     }
